@@ -62,9 +62,9 @@ theorem check_eq_of_hypotheses (p : Position) (h : hypothesesHold p = true) (sid
 theorem specHypothesesHold_sound (s : Spec.SPos) (h : specHypothesesHold s = true) (hh : s.halfmove < 65535) :
     ∀ m ∈ Spec.legalMoves s, StepOK s m := by
   unfold specHypothesesHold at h
-  simp only [Bool.or_eq_true, decide_eq_true_eq, List.all_eq_true] at h
+  simp only [Bool.or_eq_true, decide_eq_true_eq, List.all_eq_true, Bool.and_eq_true] at h
   rcases h with h | h
   · omega
-  · exact h
+  · exact fun m hm => (h m hm).1
 
 end Chess
